@@ -110,3 +110,24 @@ package types
 //@   call k3 := BeaconStorageLimitKey(c)
 //@   show k1[0] != k2[0] && k1[0] != k3[0] && k2[0] != k3[0]
 //@   show k1[0] != 4 && k2[0] != 4 && k3[0] != 4 && k1[0] != 32 && k2[0] != 32 && k3[0] != 32
+
+// ---------------------------------------------------------------- parameters
+
+//@ func validateFeeDenom(i)
+//@   inline
+//@ func validateFeeRegister(i)
+//@   inline
+//@ func validateFeeRecord(i)
+//@   inline
+//@ func validateFeePurchaseStorage(i)
+//@   inline
+//@ func validateDefaultStorageLimit(i)
+//@   inline
+//@ func validateMaxStorageLimit(i)
+//@   inline
+
+//@ func Params.Validate(p) (err)
+//@   props C16
+//@   ensures @denom err == nil ==> validDenom(p.Denom)
+//@   ensures @fees_positive err == nil ==> p.FeeRegister >= 1 && p.FeeRecord >= 1 && p.FeePurchaseStorage >= 1
+//@   ensures @limits err == nil ==> p.DefaultStorageLimit >= 1 && p.MaxStorageLimit >= 1 && p.DefaultStorageLimit <= p.MaxStorageLimit
